@@ -13,6 +13,8 @@ value and bindings (Anko.Proofs.EvalProv*: a simulation through all 28 functions
 -/
 import Anko.Model.Eval
 import Anko.Proofs.EvalProvAll
+import Anko.Gen.ProvFlow
+import Anko.Props.ProvFlowTable
 
 set_option linter.unusedSectionVars false
 
@@ -121,5 +123,13 @@ theorem every_evaluator_function_provenance_invariant (P Q : Prov) (n : Nat) : P
 under one and plain under the other), yet agree up to the flag -/
 example : (@elemRV realPolicy (.int 3)).ity = true ∧ (@elemRV flagFree (.int 3)).ity = false ∧
     (@elemRV realPolicy (.int 3)).v = (@elemRV flagFree (.int 3)).v := ⟨rfl, rfl, rfl⟩
+
+/-! ### Where a value is opened or copied out of its slot in the source (regenerated: Gen/ProvFlow)
+
+Every leaf statement of the unary operators, dereference, address-of, unalias, containerOperand and isNil - the places where an interface wrapper or a
+pointer is looked through and where an addressable value is copied - is the one written down in Props/ProvFlowTable next to the model's flag handling
+(Prov.wrap / elemRV). Any edit of these functions - also a harmless one - breaks this obligation by name; the check then
+searches model and implementation for a failing input (DESIGN.md 13.3). -/
+theorem values_are_opened_where_modelled : Gen.ProvFlow.leaves = Tables.provFlow := by decide +kernel
 
 end Anko.C20
